@@ -155,11 +155,15 @@ Proof.
     apply bind_ok in Hc. destruct Hc as [xk [Hx Hc]]. apply bind_ok in Hc. destruct Hc as [sk [Hs Hc]].
     apply bind_ok in Hc. destruct Hc as [tk [Ht Hc]]. inversion Hc; subst. cbn.
     rewrite (IH _ _ Hx), (IH _ _ Hs), (IH _ _ Ht). reflexivity.
-  - destruct (index_of syms e 0).
-    + inversion Hc; reflexivity.
-    + destruct (assoc cmap e) as [idx |] eqn:Ea; try discriminate.
-      destruct (idx <? bufsz)%nat; try discriminate. inversion Hc; subst. cbn.
-      apply Nat.ltb_lt. eauto.
+  - destruct map_first.
+    + destruct (assoc cmap e) as [idx |] eqn:Ea.
+      * destruct (idx <? bufsz)%nat; try discriminate. inversion Hc; subst. cbn. apply Nat.ltb_lt. eauto.
+      * destruct (index_of syms e 0); [ inversion Hc; reflexivity | discriminate ].
+    + destruct (index_of syms e 0).
+      * inversion Hc; reflexivity.
+      * destruct (assoc cmap e) as [idx |] eqn:Ea; try discriminate.
+        destruct (idx <? bufsz)%nat; try discriminate. inversion Hc; subst. cbn.
+        apply Nat.ltb_lt. eauto.
   - destruct e; try discriminate. destruct n; try discriminate.
     destruct (dir <? 0)%Z; [ inversion Hc; reflexivity | ].
     destruct (0 <? dir)%Z; [ inversion Hc; reflexivity | discriminate ].
@@ -200,9 +204,20 @@ Proof.
     { induction l as [| [x c] l IHl]; cbn [mapM_pair]; auto. rewrite IHl, !IH. reflexivity. }
     rewrite Hp. reflexivity.
   - destruct e; auto. rewrite !IH. destruct e2; auto. rewrite !IH. reflexivity.
-  - destruct (index_of syms e 0); auto.
-    destruct (assoc cmap e) as [idx |] eqn:Ea; auto.
-    destruct (Hb _ _ Ea) as [H1 H2]. apply Nat.ltb_lt in H1. apply Nat.ltb_lt in H2. rewrite H1, H2. reflexivity.
+  - assert (Hm : forall k1 k2 : res (@clo F), k1 = k2 ->
+             match assoc cmap e with
+             | Some idx => if (idx <? b1)%nat then Ok (KSlot idx) else ErrOOB (N.of_nat idx) (N.of_nat b1)
+             | None => k1
+             end =
+             match assoc cmap e with
+             | Some idx => if (idx <? b2)%nat then Ok (KSlot idx) else ErrOOB (N.of_nat idx) (N.of_nat b2)
+             | None => k2
+             end).
+    { intros k1 k2 ->. destruct (assoc cmap e) as [idx |] eqn:Ea; auto.
+      destruct (Hb _ _ Ea) as [H1 H2]. apply Nat.ltb_lt in H1. apply Nat.ltb_lt in H2. rewrite H1, H2. reflexivity. }
+    destruct map_first.
+    + apply Hm. reflexivity.
+    + destruct (index_of syms e 0); auto.
   - destruct (nth_child e 0); cbn [bind]; auto. rewrite IH. reflexivity.
 Qed.
 
